@@ -31,7 +31,7 @@ for d in sorted(glob.glob(os.path.join(V, 'seeded', 'C*'))):
         fr = 'first run: ' + ('caught' if f0.get(sid[:3]) else ('other property only: ' + ','.join(sorted(f0)) if f0 else 'MISSED'))
     if sid in first3:
         fr = 'first run: ' + ('caught' if first3[sid].get('own_property_fired_on_first_run') else 'not caught by ' + sid[:3])
-    for fn_ in ('round4_first_run.json', 'round5_first_run.json', 'round6_first_run.json', 'round7_first_run.json', 'round8_first_run.json'):
+    for fn_ in ('round4_first_run.json', 'round5_first_run.json', 'round6_first_run.json', 'round7_first_run.json', 'round8_first_run.json', 'round9_first_run.json'):
         pth = os.path.join(V, 'seeded', fn_)
         if os.path.exists(pth):
             d_ = json.load(open(pth))
